@@ -314,12 +314,24 @@ impl DependencyProvider for PackageRegistry {
             Ok(uv) => self.snapshot_dependencies(&uv),
             Err(bucket) => {
                 let index_package = self.index.package(&bucket.id, version)?;
-                collect_intersections(
+                let mut deps = collect_intersections(
                     index_package
                         .dependencies
                         .values()
                         .map(index_dep_package_and_range),
-                )
+                );
+                // A version may depend on its own semver bucket (for pubgrub: on its own
+                // package). pubgrub doesn't support self-dependencies, so we resolve them
+                // here: either this version satisfies the requirement itself, or it can
+                // never be part of a solution.
+                if let Some(range) = deps.remove(package)
+                    && !range.contains(version)
+                {
+                    return Ok(pubgrub::Dependencies::Unavailable(format!(
+                        "it depends on a version of itself in {range}"
+                    )));
+                }
+                deps
             }
         };
 
